@@ -19,11 +19,11 @@ open Spec
 /-- the hypotheses of `schema_spec_up` / `schema_up_vocab` on a pair of reference schemas -/
 structure UpScope (dbO dbN : DB) : Prop where
   names : ∀ tb ∈ dbO ++ dbN, tb.name ≠ "" ∧ tb.name ≠ Migration.defaultMigrationTable
-  nofk : ∀ tb ∈ dbO ++ dbN, tb.fks = []
   both : ∀ tbO ∈ dbO, ∀ tbN ∈ dbN, tbO.name = tbN.name →
     Abs.OrderCompatible tbN.colNames tbO.colNames ∧ (∀ n ∈ tbN.colNames ++ tbO.colNames, n ≠ "") ∧ tbO.pk = tbN.pk ∧
     (∀ dc : List String, (∀ c ∈ dc, c ∉ tbN.colNames) →
-      ∀ s ∈ tbN.idxs, ∀ o ∈ tbO.idxs, o.name = s.name → o ≠ s → ∃ c ∈ o.cols, c ∉ dc)
+      ∀ s ∈ tbN.idxs, ∀ o ∈ tbO.idxs, o.name = s.name → o ≠ s → ∃ c ∈ o.cols, c ∉ dc) ∧
+    (∀ s ∈ tbN.fks, ∀ o ∈ tbO.fks, s.name = o.name → s = o)
 
 theorem equiv_find (a b : DB) (h : a.equiv b = true) : ∀ t ∈ a, ∃ u ∈ b, t.equiv u = true := by
   unfold DB.equiv DB.equivBy at h
@@ -37,7 +37,7 @@ theorem equiv_find (a b : DB) (h : a.equiv b = true) : ∀ t ∈ a, ∃ u ∈ b,
 /-- the scope conditions see the old schema only up to `DB.equiv` -/
 theorem UpScope.of_equiv {dbO dbO' dbN : DB} (hs : UpScope dbO dbN) (he : dbO'.equiv dbO = true) : UpScope dbO' dbN := by
   have key : ∀ t' ∈ dbO', ∃ u ∈ dbO, t'.name = u.name ∧ t'.colNames = u.colNames ∧ t'.pk = u.pk ∧
-      (∀ i, i ∈ t'.idxs ↔ i ∈ u.idxs) ∧ (u.fks = [] → t'.fks = []) ∧
+      (∀ i, i ∈ t'.idxs ↔ i ∈ u.idxs) ∧ (∀ f, f ∈ t'.fks ↔ f ∈ u.fks) ∧
       (∀ c' ∈ t'.cols, ∃ c ∈ u.cols, c'.opts.Perm c.opts) := by
     intro t' ht'
     obtain ⟨u, hu, heq⟩ := equiv_find dbO' dbO he t' ht'
@@ -45,32 +45,26 @@ theorem UpScope.of_equiv {dbO dbO' dbN : DB} (hs : UpScope dbO dbN) (he : dbO'.e
     unfold TableSpec.equiv at heq
     simp only [Bool.and_eq_true, beq_iff_eq] at heq
     obtain ⟨⟨⟨⟨h1, h2⟩, h3⟩, h4⟩, h5⟩ := heq
-    refine ⟨u, hu, h1, colsEquiv_names _ _ h2, h3, fun i => (permEq_perm _ _ h4).mem_iff, ?_, ?_⟩
-    · intro hnil
-      have := permEq_perm _ _ h5
-      rw [hnil] at this
-      exact List.perm_nil.mp this
+    refine ⟨u, hu, h1, colsEquiv_names _ _ h2, h3, fun i => (permEq_perm _ _ h4).mem_iff,
+      fun f => (permEq_perm _ _ h5).mem_iff, ?_⟩
     · intro c' hc'
       obtain ⟨c, hc, _, _, hp⟩ := colsEquiv_mem _ _ (colsEquiv_symm _ _ h2) c' hc'
       exact ⟨c, hc, hp.symm⟩
-  refine ⟨?_, ?_, ?_⟩
+  refine ⟨?_, ?_⟩
   · intro tb htb
     rcases List.mem_append.mp htb with h | h
     · obtain ⟨u, hu, hn, _⟩ := key tb h
       rw [hn]; exact hs.names u (List.mem_append_left _ hu)
     · exact hs.names tb (List.mem_append_right _ h)
-  · intro tb htb
-    rcases List.mem_append.mp htb with h | h
-    · obtain ⟨u, hu, _, _, _, _, hfk, _⟩ := key tb h
-      exact hfk (hs.nofk u (List.mem_append_left _ hu))
-    · exact hs.nofk tb (List.mem_append_right _ h)
   · intro tbO' htbO' tbN htbN hn
-    obtain ⟨u, hu, hnu, hcn, hpk, hidx, _, _⟩ := key tbO' htbO'
-    obtain ⟨h1, h2, h3, h4⟩ := hs.both u hu tbN htbN (hnu.symm.trans hn)
+    obtain ⟨u, hu, hnu, hcn, hpk, hidx, hfk, _⟩ := key tbO' htbO'
+    obtain ⟨h1, h2, h3, h4, h5⟩ := hs.both u hu tbN htbN (hnu.symm.trans hn)
     rw [hcn, hpk]
-    refine ⟨h1, h2, h3, ?_⟩
-    intro dc hdc s hsm o ho hon hne
-    exact h4 dc hdc s hsm o ((hidx o).mp ho) hon hne
+    refine ⟨h1, h2, h3, ?_, ?_⟩
+    · intro dc hdc s hsm o ho hon hne
+      exact h4 dc hdc s hsm o ((hidx o).mp ho) hon hne
+    · intro s hsm o ho hon
+      exact h5 s hsm o ((hfk o).mp ho) hon
 
 /-- the history the workflow writes for the revisions (newest first): the printed up migrations, as text, appended -/
 def histM (g : Globals) : List (List Stmt) → M (List Stmt)
@@ -111,9 +105,9 @@ theorem rounds (g : Globals) (hg : g.dialect = .mysql) (hio : g.ignoreOrder = fa
     obtain ⟨hpe, hpp, hpx⟩ := hrev p (by simp)
     have hsc' : UpScope dbH p.2 := hsc.of_equiv heq
     obtain ⟨d, out, hd, hU, ⟨db', he, hequ⟩, _⟩ := schema_spec_up g hg hio false h p.1 dbH p.2 hes hpe hpl hpp hex hpx
-      (fun tb htb => (hsc'.names tb htb).2) hsc'.nofk hsc'.both
+      (fun tb htb => (hsc'.names tb htb).2) hsc'.both
     have hvoc := schema_up_vocab g hg hio false h p.1 dbH p.2 hes hpe hpl hpp hex hpx
-      (fun tb htb => (hsc'.names tb htb).1) hsc'.nofk
+      (fun tb htb => (hsc'.names tb htb).1)
       (fun a ha b hb e => by obtain ⟨_, x2, x3, _⟩ := hsc'.both a ha b hb e; exact ⟨x2, x3⟩) d out hd hU
     have hup : modelUp g h p.1 = .ok out.flatten := by
       unfold modelUp
